@@ -68,11 +68,13 @@ pub struct WsGenOpts {
     /// right before the failing patch (otherwise whether the reject is written depends on
     /// how the push is split / on save timing - the "if its directory exists" clause)
     pub strict_reject_dirs: bool,
+    /// chance (out of 8) that a modify entry gets differing ---/+++ names
+    pub alt_name_chance: u32,
 }
 
 impl Default for WsGenOpts {
     fn default() -> Self {
-        WsGenOpts { max_patches: 6, max_files: 8, fail_chance: 3, allow_reverse: true, allow_rename: true, allow_mode: true, allow_strip: true, nasty_names: false, allow_dup_entries: true, allow_dir_races: true, max_lines: 30, strict_reject_dirs: false }
+        WsGenOpts { max_patches: 6, max_files: 8, fail_chance: 3, allow_reverse: true, allow_rename: true, allow_mode: true, allow_strip: true, nasty_names: false, allow_dup_entries: true, allow_dir_races: true, max_lines: 30, strict_reject_dirs: false, alt_name_chance: 0 }
     }
 }
 
@@ -391,10 +393,39 @@ pub fn gen_ws(ch: &mut Chooser, cx: &mut CaseCtx, o: &WsGenOpts) -> WsCase {
                             path_in_patch = np;
                         }
                     }
-                    let chg = FileChange { old_path: path_in_patch.clone(), new_path: path_in_patch.clone(), old: Some(old_c.clone()), new: Some(new_c.clone()), old_mode: Some(om), new_mode: Some(nm), rename: false };
+                    let mut chg = FileChange { old_path: path_in_patch.clone(), new_path: path_in_patch.clone(), old: Some(old_c.clone()), new: Some(new_c.clone()), old_mode: Some(om), new_mode: Some(nm), rename: false };
+                    // differing ---/+++ names (not a rename): the tool must patch the old name if that file
+                    // currently exists (on disk or as left by earlier patches of the run), else the new name
+                    let mut alt_note: Option<String> = None;
+                    if o.alt_name_chance > 0 && !reverse && !missing_file && !mode_change && ch.chance(o.alt_name_chance, 8) {
+                        let gone: Vec<String> = ever.iter().filter(|p| !next.files.contains_key(*p) && !touched.contains(*p) && !path_conflicts(&next, p, &[])).cloned().collect();
+                        if ch.chance(1, 2) {
+                            // V1: old name does not exist (never did, or was deleted/renamed away earlier), new = the file
+                            let x = if !gone.is_empty() && ch.chance(2, 3) { Some(gone[ch.below(gone.len())].clone()) } else { new_path(ch, &next, &ever, false) };
+                            if let Some(x) = x {
+                                alt_note = Some(if gone.contains(&x) { "alt-old-gone-earlier".into() } else { "alt-old-never-existed".into() });
+                                ever.push(x.clone());
+                                touched.push(x.clone());
+                                chg.old_path = x;
+                            }
+                        } else {
+                            // V2: old = the file, new name = another existing file or nothing
+                            let others: Vec<String> = next.files.keys().filter(|p| **p != path && !touched.contains(*p)).cloned().collect();
+                            let y = if !others.is_empty() && ch.chance(1, 2) { Some(others[ch.below(others.len())].clone()) } else { new_path(ch, &next, &ever, false) };
+                            if let Some(y) = y {
+                                alt_note = Some(if next.files.contains_key(&y) { "alt-new-exists-too".into() } else { "alt-new-absent".into() });
+                                ever.push(y.clone());
+                                touched.push(y.clone());
+                                chg.new_path = y;
+                            }
+                        }
+                    }
+                    if let Some(n) = &alt_note {
+                        feat.push(n.clone());
+                    }
                     let mut cc = c;
                     let mut dd = d.clone();
-                    if missing_file {
+                    if missing_file || alt_note.is_some() {
                         dd.orig_style = false;
                     }
                     let mut fp = build_file_patch(ch, &dd, &chg, &ops_dir, cc, merge);
@@ -440,9 +471,9 @@ pub fn gen_ws(ch: &mut Chooser, cx: &mut CaseCtx, o: &WsGenOpts) -> WsCase {
                     }
                     touched.push(path.clone());
                     let target = path_in_patch.clone();
-                    ops.push(FileOp { kind: if mode_change { "mode".into() } else { "modify".into() }, old_path: path_in_patch.clone(), new_path: path_in_patch.clone(), target, hunks: fp.hunks.clone(), failing_hunks: failing, fail_reason: fail_reason.clone() });
+                    ops.push(FileOp { kind: if mode_change { "mode".into() } else { "modify".into() }, old_path: chg.old_path.clone(), new_path: chg.new_path.clone(), target, hunks: fp.hunks.clone(), failing_hunks: failing, fail_reason: fail_reason.clone() });
                     specs.push(fp);
-                    if dup && fail_reason.is_none() {
+                    if dup && fail_reason.is_none() && alt_note.is_none() {
                         // second entry: another edit of the same file, on top of the first
                         let base = nl.clone();
                         let (nl2, eops2) = gen_edit(ch, &base, alpha, true);
